@@ -155,3 +155,102 @@ impl Universe {
         m
     }
 }
+
+// ---------------------------------------------------------------- typed level (Builder / TypeId)
+
+use libtw2_gamenet_common::snap_obj::TypeId;
+use libtw2_snapshot::snap::Builder;
+use libtw2_snapshot::Snap;
+use serde_json::json;
+use uuid::Uuid;
+
+pub type Typed = BTreeMap<(TypeId, u16), Vec<i32>>;
+
+pub fn gen_typed(rng: &mut Rng) -> (Typed, Vec<(TypeId, u16)>) {
+    let nitems = if cfg!(miri) { rng.range(0, 20) as usize } else { match rng.below(7) {
+        0 => 0,
+        1 => 1,
+        2 => rng.range(1, 10) as usize,
+        3 => rng.range(10, 100) as usize,
+        4 => 1024,
+        _ => rng.range(1, 1024) as usize,
+    } };
+    let nuuid = match rng.below(6) {
+        0 => 0,
+        1 => 1,
+        2 => 2,
+        3 => rng.range(2, 8) as usize,
+        _ => rng.range(0, 40) as usize,
+    };
+    let uuids: Vec<Uuid> = (0..nuuid)
+        .map(|_| {
+            let mut b = [0u8; 16];
+            rng.fill(&mut b);
+            if rng.chance(1, 8) {
+                b = [0; 16];
+                b[15] = rng.u8();
+            }
+            Uuid::from_bytes(b)
+        })
+        .collect();
+    let nord = rng.range(1, 6) as usize;
+    let ords: Vec<u16> = (0..nord)
+        .map(|_| match rng.below(4) {
+            0 => 1,
+            1 => 0x3fff,
+            _ => rng.range(1, 0x3fff) as u16,
+        })
+        .collect();
+    let maxw = *rng.pick(&[0usize, 1, 4, 16, 100, 2000]);
+    let mut m = Typed::new();
+    let mut order = Vec::new();
+    let mut bytes = 8usize;
+    let mut types_used = std::collections::BTreeSet::new();
+    let mut guard = 0;
+    while order.len() < nitems && guard < nitems * 4 + 8 {
+        guard += 1;
+        let t = if !uuids.is_empty() && rng.chance(1, 2) { TypeId::Uuid(*rng.pick(&uuids)) } else { TypeId::Ordinal(*rng.pick(&ords)) };
+        let id = match rng.below(4) {
+            0 => rng.below(3) as u16,
+            1 => 0xffff - rng.below(3) as u16,
+            _ => rng.below(0x10000) as u16,
+        };
+        let len = match rng.below(4) {
+            0 => 0,
+            1 => rng.usize_below(4),
+            _ => rng.usize_below(maxw + 1),
+        };
+        if m.contains_key(&(t, id)) {
+            continue;
+        }
+        // stay inside the limits: registry items count as items, too
+        let new_type = matches!(t, TypeId::Uuid(_)) && !types_used.contains(&t);
+        let items_after = order.len() + types_used.iter().filter(|t| matches!(t, TypeId::Uuid(_))).count() + 1 + new_type as usize;
+        let bytes_after = bytes + 8 + 4 * len + if new_type { 8 + 16 } else { 0 };
+        if items_after > 1024 || bytes_after > 65536 {
+            continue;
+        }
+        bytes = bytes_after;
+        types_used.insert(t);
+        m.insert((t, id), (0..len).map(|_| value(rng)).collect());
+        order.push((t, id));
+    }
+    (m, order)
+}
+
+pub fn typed_json(m: &Typed) -> serde_json::Value {
+    json!(m.iter().map(|(k, d)| json!([format!("{:?}", k.0), k.1, d.len()])).collect::<Vec<_>>())
+}
+
+pub fn build_typed(order: &[(TypeId, u16)], m: &Typed, mut b: Builder) -> Result<Snap, String> {
+    for k in order {
+        b.add_item(k.0, k.1, &m[k]).map_err(|e| format!("{:?}", e))?;
+    }
+    Ok(b.finish())
+}
+
+
+/// Enumerates a snapshot through the public API.
+pub fn typed_of(s: &Snap) -> Typed {
+    s.items().map(|i| ((i.type_id, i.id), i.data.to_vec())).collect()
+}
